@@ -153,10 +153,17 @@ def mutants_of(prop):
 
 
 def sh(cmd, env=None, cwd=None, timeout=3600):
+    import signal
     e = dict(os.environ)
     e.update(env or {})
-    p = subprocess.run(cmd, shell=isinstance(cmd, str), cwd=cwd, env=e, stdout=subprocess.PIPE, stderr=subprocess.STDOUT, text=True, timeout=timeout)
-    return p.returncode, p.stdout
+    p = subprocess.Popen(cmd, shell=isinstance(cmd, str), cwd=cwd, env=e, stdout=subprocess.PIPE, stderr=subprocess.STDOUT, text=True, start_new_session=True)
+    try:
+        out, _ = p.communicate(timeout=timeout)
+    except subprocess.TimeoutExpired:
+        os.killpg(p.pid, signal.SIGKILL)      # the whole group: a mutant that never terminates leaves pool workers behind otherwise
+        p.communicate()
+        raise
+    return p.returncode, out
 
 
 def worktree(k):
@@ -189,9 +196,9 @@ def job_check(args):
     if not apply(wt, m):
         return dict(m, status='syntax-error')
     try:
-        rc, out = sh([sys.executable, os.path.join(HERE, 'vcheck.py'), prop, '--tier', 'quick', '--no-evidence', '--jobs', '6'], env={'PRYSM_REPO': wt}, cwd=HERE, timeout=1800)
+        rc, out = sh([sys.executable, os.path.join(HERE, 'vcheck.py'), prop, '--tier', 'quick', '--no-evidence', '--jobs', '6'], env={'PRYSM_REPO': wt}, cwd=HERE, timeout=300)
     except subprocess.TimeoutExpired:
-        rc, out = 1, 'TIMEOUT'
+        rc, out = 1, 'bucket=TIMEOUT (the mutant does not terminate within 300 s; the unchanged check takes < 60 s)'
     finally:
         restore(wt, m)
     lines = [l.strip()[:200] for l in out.splitlines() if 'bucket=' in l][:2]
